@@ -304,7 +304,7 @@ func c13PrefixOK(m *Model, rq Req, resp []byte) bool {
 func TestC13(t *testing.T) {
 	r := NewReporter(t)
 	defer r.Done()
-	r.Rule("12 scenarios (plain reads with the default, a 1000-byte and no pooled transfer buffer, generated image DVD/PS3 with lazily opened members, redump with adjacent and with both keys, 3k3y, directory enumeration with symlinks, create/write/delete, dir-size, CD reads); per scenario: fault-free run numbers the N leaf filesystem operations, then an injected error (EIO, EINTR, EAGAIN) at every index, a legal short read (1 byte / half) at every Read, a partial write (half, then ENOSPC) at every Write, a short read followed by EINTR/EAGAIN at the next operations, thorough: every pair of errors (i<j); and connection endings FIN / RST / idle timeout at every script byte position class write failure at every response byte position class, and a reset by a slowly receiving client (4096-byte send buffer, server blocked in Write) at every response byte position class; oracles: handle ledger empty after the connection ended, connection closed, fresh connection served, responses = model answer | failure code | correct prefix + disconnect; distinct by (scenario, deviation)")
+	r.Rule("12 scenarios (plain reads with the default, a 1000-byte and no pooled transfer buffer, generated image DVD/PS3 with lazily opened members, redump with adjacent and with both keys, 3k3y, directory enumeration with symlinks, create/write/delete, dir-size, CD reads); per scenario: fault-free run numbers the N leaf filesystem operations, then an injected error (EIO, EINTR, EAGAIN) at every index, a legal short read (1 byte / half) at every Read, a partial write (half, then ENOSPC) at every Write, a short read followed by EINTR/EAGAIN at the next operations, thorough: every pair of errors (i<j); and connection endings FIN / RST / idle timeout at every script byte position class write failure at every response byte position class, and a reset by a slowly receiving client (4096-byte send buffer, server blocked in Write) at every response byte position class; 2700 requests on one connection and 400 short connections with four kinds of ending on one server; oracles: handle ledger empty after the connection ended, connection closed, fresh connection served, responses = model answer | failure code | correct prefix + disconnect; distinct by (scenario, deviation)")
 	w, objs := buildC02World(t, r)
 	defer w.Cleanup()
 	// extras: both-keys image, directory with symlinks, writable dir, CD image
@@ -537,6 +537,84 @@ func TestC13(t *testing.T) {
 				}
 			}
 			judge(p, res, "end")
+		}
+	}
+	// (6) repetition: the same commands many times on one connection, and many short connections that end in
+	// different ways on one server - nothing may accumulate (handles, goroutines, per-connection leftovers)
+	if r.Mine(idx + 1) {
+		var reqs []Req
+		for k := 0; k < 300; k++ {
+			reqs = append(reqs, mkReq(opOpenFile, "/plain/f65537.bin"), rdReq(uint64(k), 100), mkReq(opOpenDir, "/d"), noargReq(opReadDirEntry), mkReq(opStatFile, "/other.bin"),
+				mkReq(opOpenFile, "/***DVD***/game"), rdcReq(uint64(k)*2048, 2048), mkReq(opOpenFile, "/PS3ISO/r.iso"), rdReq(2047, 2))
+		}
+		sc := c13Scenario{name: "repetition-one-connection", reqs: reqs}
+		res := c13Run(t, w.Root, sc, mk, faultPlan{}, resetW)
+		r.Transition(int64(len(res.steps)))
+		r.Eval(1)
+		r.State("repetition-one-connection")
+		r.Nontrivial("repetition-one-connection")
+		if res.why != "" {
+			r.Violation("C13:repetition:"+res.sig, "2700 requests on one connection: "+res.why, map[string]any{"scenario": sc.name, "steps_tail": res.steps[max(0, len(res.steps)-5):]})
+		} else {
+			r.Outcome("repetition-one-connection-ok")
+		}
+	}
+	if r.Mine(idx + 2) {
+		var why string
+		leaf := newVFs(afero.NewOsFs(), "leaf")
+		synctest.Test(t, func(t *testing.T) {
+			s := startSrv(SrvOpts{Root: w.Root, Timeout: c13Timeout, LeafWrap: func(afero.Fs) afero.Fs { return leaf }})
+			for k := 0; k < 400 && why == ""; k++ {
+				c := s.Dial(nil)
+				m := mk()
+				script := []Req{mkReq(opOpenFile, "/plain/f2048.bin"), rdReq(uint64(k%2048), 64), mkReq(opOpenDir, "/d"), noargReq(opReadDirEntry)}
+				if k%5 == 4 {
+					script = []Req{mkReq(opOpenFile, "/***DVD***/game"), rdReq(4096, 100)}
+				}
+				for i, rq := range script {
+					m.Pre(rq)
+					resp, closed := s.Exchange(c, rq.Encode())
+					if w, _ := m.Check(rq, resp, closed); w != "" {
+						why = sprintf("connection %d request %d %s: %s", k, i, rq, w)
+						break
+					}
+				}
+				switch k % 4 {
+				case 0:
+					c.Fin()
+				case 1:
+					c.Rst()
+				case 2:
+					c.Send([]byte{0x12, 0x24, 0, 9}) // half a command, then FIN
+					c.Fin()
+				case 3:
+					c.Send(rawReq([]byte{0xff, 0xff, 0, 0, 0, 0, 0, 0, 0, 0, 0, 0, 0, 0, 0, 0}).Encode()) // unknown opcode
+				}
+				synctest.Wait()
+				if !c.ServerClosed() {
+					why = sprintf("connection %d (ending kind %d) was not closed by the server", k, k%4)
+				}
+				if l := leaf.Outstanding(); len(l) > 0 && why == "" {
+					why = sprintf("after connection %d ended %d handle(s) stay open: %v", k, len(l), l)
+				}
+			}
+			s.Shutdown()
+			select {
+			case <-s.done:
+			default:
+				if why == "" {
+					why = "Serve did not return after 400 connections"
+				}
+			}
+		})
+		r.Transition(400)
+		r.Eval(1)
+		r.State("repetition-400-connections")
+		r.Nontrivial("repetition-400-connections")
+		if why != "" {
+			r.Violation("C13:churn", "400 short connections with four kinds of ending: "+why, nil)
+		} else {
+			r.Outcome("repetition-400-connections-ok")
 		}
 	}
 	r.Assume("faults are injected below BasePathFs on the real OsFs; only answers the interfaces allow are injected (errors with n=0, short Read counts); a failing Close still releases the descriptor")
